@@ -407,7 +407,7 @@ class Dependent:
         bound, dt = item
         if not isinstance(dt, DependentType):
             dt = dependent_check(dt)
-        return dt.with_bound(bound)
+        return dt.with_bound(normalize_type(bound, None))
 
 
 if TYPE_CHECKING:  # pragma: no cover
